@@ -76,6 +76,7 @@ pub(crate) enum PKind {
     Retain,
     Resize(usize),
     Close,
+    Status,
 }
 
 pub(crate) struct ParkedOp {
@@ -90,6 +91,7 @@ enum OpOut {
     Unit,
     Take(Obj),
     Retain(RetainResult<Obj>),
+    Status(Status),
 }
 
 pub struct Interp<'a> {
@@ -446,6 +448,7 @@ impl<'a> Interp<'a> {
             Step::Status => {
                 // sampled in after_step
             }
+            Step::StatusAt { pause } => self.status_at(pause),
             Step::Resume { p, pause } => {
                 if let Some(i) = pick(p, self.parked.len()) {
                     self.resume(i, pause);
@@ -742,6 +745,12 @@ impl<'a> Interp<'a> {
                 }
                 self.close_finished();
             }
+            (PKind::Status, Ok(b)) => match *b.downcast::<OpOut>().expect("opout") {
+                // every figure is read under the lock, so the value describes the pool as it is now
+                OpOut::Status(st) => self.judge_status(st, "status() that was parked before its lock"),
+                _ => unreachable!(),
+            },
+            (PKind::Status, Err(pk)) => self.op_panicked("status", pk),
         }
     }
 
@@ -1023,7 +1032,7 @@ impl<'a> Interp<'a> {
                             if self.parked.is_empty() && b.size > b.max_size && a.permits > b.permits && !b.closed {
                                 self.flag(
                                     "take-released-surplus-slot",
-                                    &["C07"],
+                                    &["C07", "C09"],
                                     format!("Object::take freed a slot although size exceeded max_size: {:?} -> {:?}", b, a),
                                 );
                             }
@@ -1343,6 +1352,15 @@ impl<'a> Interp<'a> {
         }
     }
 
+    /// status() as an operation of its own that can be parked at its lock acquisition
+    pub(crate) fn status_at(&mut self, pause: u8) {
+        let Some(pool) = self.pool.clone() else { return };
+        let op = self.new_op(OpKind::Status);
+        let f: Box<dyn FnOnce() -> Box<dyn Any + Send> + Send> = Box::new(move || Box::new(OpOut::Status(pool.status())) as Box<dyn Any + Send>);
+        let r = self.sched.spawn(op, pause as u32, f);
+        self.handle_run(r, PKind::Status, op);
+    }
+
     pub(crate) fn drop_pool(&mut self) {
         if !self.parked.is_empty()
             || self
@@ -1622,7 +1640,18 @@ impl<'a> Interp<'a> {
         if live + creating == max && max >= 1 {
             self.saw_full = true;
         }
-        if let (Some(st), Some(sn)) = (self.status(), self.snapshot()) {
+        if let Some(st) = self.status() {
+            self.judge_status(st, at);
+        }
+    }
+
+    /// plausibility of a status() value against ground truth at this instant (C11)
+    pub(crate) fn judge_status(&mut self, st: Status, at: &str) {
+        let (live, creating, taking) = {
+            let w = self.world.w();
+            (w.live(), w.creating as usize, w.taking as usize)
+        };
+        if let Some(sn) = self.snapshot() {
             let exist = live + creating + taking;
             let inside = self.inside_get();
             let big = 1usize << 32;
